@@ -564,6 +564,9 @@ class Exec(CallsMixin):
                                     paths.append(amap[head] + ("." + tail if tail else ""))
         return paths
 
+    def ghost_names(self):
+        return ["yielded"] + [g for g, _ in self.opts.get("ghost_calls", {}).values()]
+
     def s_While(self, node, st):
         return self.loop(node, st, None)
 
@@ -686,8 +689,8 @@ class Exec(CallsMixin):
             for cl in invs:
                 extra = {"i": VInt(idx)} if idx is not None else {}
                 bound = dict(s.vars)
-                if "yielded" in s.ghost:
-                    bound["yielded"] = s.ghost["yielded"]
+                for gname_ in self.ghost_names():
+                    bound[gname_] = s.ghost.get(gname_, Val("l", EMPTY_LIST))
                 if is_for and sq[0] == "seq":
                     bound.setdefault("__seq", Val("l", sq[1]))
                 conj.append((cl, self.eval_clause(cl, bound, s, self.entry_pre, extra)))
@@ -707,6 +710,10 @@ class Exec(CallsMixin):
                 s.assume(idx <= n)
             if "yielded" in st.ghost or any(isinstance(x, (ast.Yield, ast.YieldFrom)) for b in node.body for x in ast.walk(b)):
                 s.ghost["yielded"] = Val("l", fresh("loop_yielded", ListS))
+            for cname, (gname, _k) in self.opts.get("ghost_calls", {}).items():
+                if any(isinstance(x, ast.Call) and (ast.unparse(x.func) == cname or ast.unparse(x.func).split(".")[-1] == cname)
+                       for b in node.body for x in ast.walk(b)):
+                    s.ghost[gname] = Val("l", fresh("loop_" + gname, ListS))
             for cl, g in eval_inv(s, idx):
                 s.assume(g)
             return s, idx
